@@ -331,3 +331,76 @@ pub fn shapes(ty: Ty, min_n: usize, max_n: usize, nan_zm: bool, max_parts: usize
 pub fn pick(ix: u16, len: usize) -> usize {
     ((ix as usize) * len) >> 16
 }
+
+// ---------------------------------------------------------------------------------------------
+// file-level models for the reference encoder (layouts the library's writer never emits)
+
+pub fn f_anybits() -> BoxedStrategy<F> {
+    prop_oneof![
+        4 => f_small(),
+        2 => f_dyadic(),
+        2 => f_special(),
+        2 => any::<u64>().prop_map(F),
+        1 => f_nan(),
+    ]
+    .boxed()
+}
+
+fn fvertex(ty: Ty, xy: BoxedStrategy<F>) -> BoxedStrategy<V> {
+    let z = if ty.has_z() { f_anybits() } else { Just(F(0)).boxed() };
+    let m = if ty.carries_m() {
+        prop_oneof![3 => f_anybits(), 1 => f_measure(Profile::Small, true)].boxed()
+    } else {
+        Just(F(0)).boxed()
+    };
+    (xy.clone(), xy, z, m).prop_map(|(x, y, z, m)| [x, y, z, m]).boxed()
+}
+
+/// A record as a foreign producer may store it: any part structure (zero parts, empty parts, single
+/// vertices), optional M block present or absent, arbitrary stored box.
+pub fn fgeom(ty: Ty, max_parts: usize, max_pts: usize) -> BoxedStrategy<Geom> {
+    if ty == Ty::Null {
+        return Just(Geom::null()).boxed();
+    }
+    let xy = prop_oneof![2 => f_dyadic(), 2 => f_small(), 1 => f_anybits()];
+    let bbox = proptest::array::uniform8(prop_oneof![3 => f_small(), 1 => f_anybits()]);
+    let kinds = if ty == Ty::Multipatch { 0i32..=5 } else { 0i32..=0 };
+    let m_present = if ty == Ty::PointM || !ty.carries_m() {
+        Just(ty == Ty::PointM).boxed()
+    } else {
+        any::<bool>().boxed()
+    };
+    let parts: BoxedStrategy<Vec<Part>> = match ty.family() {
+        Family::Point => fvertex(ty, xy.clone().boxed())
+            .prop_map(|v| vec![Part { kind: 0, pts: vec![v] }])
+            .boxed(),
+        Family::Multipoint => xy
+            .clone()
+            .prop_flat_map(move |_| svec(fvertex(ty, f_profile(Profile::Small)), 0, max_pts))
+            .prop_map(|p| vec![Part { kind: 0, pts: p }])
+            .boxed(),
+        _ => {
+            let xyb = xy.boxed();
+            svec(
+                (kinds, svec(fvertex(ty, xyb), 0, max_pts)).prop_map(|(k, p)| Part { kind: k, pts: p }).boxed(),
+                0,
+                max_parts,
+            )
+        }
+    };
+    (parts, bbox, m_present)
+        .prop_map(move |(parts, bbox, m_present)| {
+            Geom {
+                ty,
+                parts,
+                bbox,
+                m_present,
+            }
+            .canon_file()
+        })
+        .boxed()
+}
+
+pub fn ty14() -> BoxedStrategy<Ty> {
+    (0usize..14).prop_map(|i| ALL14[i]).boxed()
+}
